@@ -9,7 +9,7 @@
    cands maxd minv s are the (query, track, weight) triples with at least min_votes (and at least one) counted distance.
    Weights are canonical rationals, so "=" on weights is equality of numbers. *)
 From Coq Require Import List NArith ZArith QArith Bool Permutation Sorted.
-From Similari Require Import Base.Num Model.Assign Model.Voting Proofs.AssignProofs Proofs.VotingProofs.
+From Similari Require Import Base.Num Model.Assign Model.Voting Proofs.AssignProofs Proofs.AssignPerm Proofs.VotingProofs.
 Import ListNotations.
 Local Close Scope Q_scope.
 Local Open Scope nat_scope.
@@ -157,6 +157,44 @@ Theorem hungarian_only_queries :
     sort_voting km thr n cols s = Some W -> forall f t, In (f, t) W -> In f (froms s).
 Proof. exact hungarian_only_queries_lemma. Qed.
 
+(* ORDER INDEPENDENCE of Hungarian voting.  Streams s1, s2 that are permutations of one another, no repeated
+   (from, to) pair (a repeated pair is overwritten by its last occurrence, which is order dependent by construction),
+   thr > 0, disjoint id spaces, declared sizes adequate (they may even differ between the two calls), and a UNIQUE optimum
+   ([unique_opt]: any two gated answers of s1 that reach the exhaustive optimum best_partial are equal).  Then for ANY two
+   oracles that return optimal assignments of the two padded matrices, the winners are the same finite map:
+   the same set of (query, track-or-itself) entries, a permutation of one another, and W1 is W2 re-ordered to the query
+   order of s1. *)
+Theorem hungarian_perm_invariant :
+  forall (km1 km2 : matrix -> list nat) thr n1 c1 n2 c2 s1 s2 W1 W2,
+    (0 < thr)%Z -> Permutation s1 s2 -> pairs_nodup s1 -> ids_disj s1 ->
+    length (tos s1) <= c1 -> length (tos s1) <= c2 -> unique_opt thr s1 ->
+    km_ok_on km1 thr n1 c1 s1 -> km_ok_on km2 thr n2 c2 s2 ->
+    sort_voting km1 thr n1 c1 s1 = Some W1 -> sort_voting km2 thr n2 c2 s2 = Some W2 ->
+    Permutation W1 W2 /\ (forall e, In e W1 <-> In e W2) /\ W1 = reorder (froms s1) W2.
+Proof. exact hungarian_perm_invariant_lemma. Qed.
+
+(* well-formed streams never panic (ids > 0, disjoint id spaces, declared sizes cover the stream), so the hypotheses
+   "= Some W" above are not restrictive *)
+Theorem hungarian_no_panic :
+  forall km thr n cols s,
+    (0 < thr)%Z -> ids_pos s -> ids_disj s -> length (froms s) <= n -> length (tos s) <= cols ->
+    km_ok_on km thr n cols s -> exists W, sort_voting km thr n cols s = Some W.
+Proof. exact sort_winners_succeeds. Qed.
+
+(* the shape C05 needs (Model/DistProto.v, Section Predict: forall s1 s2, Permutation s1 s2 -> tie_free s1 ->
+   winners s1 = winners s2): a TOTAL winners function with results in canonical form (sorted by query id), Leibniz equal *)
+Theorem hungarian_winners_perm_invariant :
+  forall km thr, (0 < thr)%Z -> km_ok km ->
+    forall s1 s2, Permutation s1 s2 -> hung_tie_free thr s1 -> hung_winners km thr s1 = hung_winners km thr s2.
+Proof. exact hung_winners_perm_invariant_lemma. Qed.
+
+(* ... and hung_winners (declared sizes taken from the stream) is what SortVoting answers for ANY adequate declared sizes *)
+Theorem hungarian_sizes_irrelevant :
+  forall km thr n cols s W,
+    (0 < thr)%Z -> km_ok km -> hung_tie_free thr s -> length (tos s) <= cols ->
+    sort_voting km thr n cols s = Some W -> hung_winners km thr s = Some (canon_w W).
+Proof. exact hung_winners_any_sizes_lemma. Qed.
+
 (* ---- non-vacuity ---------------------------------------------------------------------------------------------- *)
 (* the repository's unit-test stream, moved to a dyadic grid: two queries, three tracks each, N = 2 *)
 Definition ex_stream : list dist :=
@@ -199,4 +237,34 @@ Example c17_nonvacuous_hungarian :
 Proof.
   split; [vm_compute; reflexivity|]. intros m idx H. vm_compute in H. inversion H; subst m idx.
   apply (check_dual_sound_lemma _ [3; 2] [35; 30]%Z [0; 0; 25; 15]%Z). vm_compute. reflexivity.
+Qed.
+
+(* the stream of the greedy-vs-optimal instance has a unique optimum: hung_tie_free is satisfiable, and reversing the
+   stream gives the same canonical winners *)
+Example c17_nonvacuous_hungarian_perm :
+  let s := [(10%N, 1%N, 60%Z); (10%N, 2%N, 50%Z); (11%N, 1%N, 55%Z)] in
+  hung_tie_free 30%Z s /\
+  hung_winners (fun _ => [3; 2]) 30%Z s = Some [(10%N, 2%N); (11%N, 1%N)] /\
+  hung_winners (fun _ => [2; 3]) 30%Z (rev s) = Some [(10%N, 2%N); (11%N, 1%N)].
+Proof.
+  cbv zeta. split; [|split; vm_compute; reflexivity].
+  unfold hung_tie_free. split; [|split; [|split]].
+  - intros p Hp. cbn in Hp. destruct Hp as [Hp|[Hp|[Hp|[]]]]; subst; split; discriminate.
+  - intros p p' Hp Hp'. cbn in Hp, Hp'.
+    destruct Hp as [Hp|[Hp|[Hp|[]]]], Hp' as [Hp'|[Hp'|[Hp'|[]]]]; subst; vm_compute; discriminate.
+  - unfold pairs_nodup. cbn. repeat constructor; cbn; intuition discriminate.
+  - assert (forall W, gated_winners 30%Z [(10%N, 1%N, 60%Z); (10%N, 2%N, 50%Z); (11%N, 1%N, 55%Z)] W ->
+              w_value [(10%N, 1%N, 60%Z); (10%N, 2%N, 50%Z); (11%N, 1%N, 55%Z)] 30%Z W = 105%Z ->
+              W = [(10%N, 2%N); (11%N, 1%N)]) as H.
+    { intros W [H1 [H2 H3]] Hv.
+      destruct W as [|[f1 a] [|[f2 b] [|? ?]]]; try discriminate. cbn in H1. injection H1 as E1 E2. subst f1 f2.
+      assert (a = 10%N \/ a = 1%N \/ a = 2%N) as Ha.
+      { destruct (H3 10%N a (or_introl eq_refl)) as [E|[w [Hw _]]]; [left; exact E|].
+        apply lastw_In in Hw. cbn in Hw. destruct Hw as [Hw|[Hw|[Hw|[]]]]; inversion Hw; tauto. }
+      assert (b = 11%N \/ b = 1%N) as Hb.
+      { destruct (H3 11%N b (or_intror (or_introl eq_refl))) as [E|[w [Hw _]]]; [left; exact E|].
+        apply lastw_In in Hw. cbn in Hw. destruct Hw as [Hw|[Hw|[Hw|[]]]]; inversion Hw; tauto. }
+      destruct Ha as [Ha|[Ha|Ha]], Hb as [Hb|Hb]; subst a b; try (vm_compute in Hv; discriminate); reflexivity. }
+    intros W W' G G' V V'. change (fst (fst (best_partial 30%Z [(10%N, 1%N, 60%Z); (10%N, 2%N, 50%Z); (11%N, 1%N, 55%Z)]))) with 105%Z in V, V'.
+    rewrite (H W G V), (H W' G' V'). reflexivity.
 Qed.
